@@ -174,6 +174,30 @@ func TestVerifReplayRenderers(t *testing.T) {
 			}
 		}
 	}
+	// ---- histogram: after any update sequence every displayed bar is proportional to its value ----
+	color.Enabled = false
+	for _, seq := range [][]int64{{2, 20}, {20, 2}, {5, 5, 50}, {1, 100, 10}} {
+		vt := multiterm.NewVirtualTerm()
+		h := NewHistogram(vt, len(seq))
+		for i, v := range seq {
+			h.WriteForLine(i, fmt.Sprintf("k%d", i), v)
+		}
+		var max int64
+		for _, v := range seq {
+			if v > max {
+				max = v
+			}
+		}
+		for i, v := range seq {
+			line := vt.Get(i)
+			cells := strings.Count(line, "█") + strings.Count(line, "|")
+			want := int(float64(v) / float64(max) * 50)
+			if cells < want-1 || cells > want+1 {
+				fail(fmt.Sprintf("histogram after updates %v: line %d (value %d, maximum %d) shows a bar of %d cells, proportional length is %d of 50", seq, i, v, max, cells, want))
+				return
+			}
+		}
+	}
 	// ---- table: columns line up ----
 	color.Enabled = false
 	vt := multiterm.NewVirtualTerm()
